@@ -236,6 +236,11 @@ func famTail(c *fw.Ctx, emit emitFn) {
 			Else: []gen.Stmt{gen.If{Cond: bin("==", n, gen.IntLit{V: 1}), Then: []gen.Stmt{ret(gen.Call{Fn: gen.Name{N: "f"}, Args: []gen.Expr{gen.IntLit{V: 0}, bin("+", acc, gen.IntLit{V: 100})}})}, HasElse: true, Else: []gen.Stmt{ret(selfAcc)}}}}), true, true},
 		{"discarded-self-call-last", fn([]string{"n", "acc"}, false, gen.If{Cond: isZero, Then: []gen.Stmt{ret(acc)}}, gen.ExprStmt{X: selfAcc}), false, true},
 		{"discarded-self-call-then-bare-return", fn([]string{"n", "acc"}, false, gen.If{Cond: isZero, Then: []gen.Stmt{ret(acc)}}, gen.ExprStmt{X: selfAcc}, gen.Return{}), false, true},
+		// both tail forms in one function: the frame re-used by a discarded self call is re-used again by a returned one
+		// (and the other way round); the outermost form decides whether a value comes back
+		{"discarded-then-returned", fn([]string{"n", "acc"}, false, gen.If{Cond: isZero, Then: []gen.Stmt{ret(acc)}}, gen.If{Cond: bin("==", n, gen.IntLit{V: 1}), Then: []gen.Stmt{ret(selfAcc)}}, gen.ExprStmt{X: selfAcc}), false, true},
+		{"returned-then-discarded", fn([]string{"n", "acc"}, false, gen.If{Cond: isZero, Then: []gen.Stmt{ret(acc)}}, gen.If{Cond: bin("==", n, gen.IntLit{V: 1}), Then: []gen.Stmt{gen.ExprStmt{X: selfAcc}, gen.Return{}}}, ret(selfAcc)), false, true},
+		{"alternating-forms", fn([]string{"n", "acc"}, false, gen.If{Cond: isZero, Then: []gen.Stmt{ret(acc)}}, gen.If{Cond: bin("==", bin("%", n, gen.IntLit{V: 2}), gen.IntLit{V: 0}), Then: []gen.Stmt{ret(selfAcc)}}, gen.ExprStmt{X: selfAcc}), false, true},
 		{"return-self-plus-0", fn([]string{"n", "acc"}, false, gen.If{Cond: isZero, Then: []gen.Stmt{ret(acc)}}, ret(bin("+", selfAcc, gen.IntLit{V: 0}))), false, true},
 		{"self-call-in-try", fn([]string{"n", "acc"}, false, gen.If{Cond: isZero, Then: []gen.Stmt{ret(acc)}},
 			gen.Try{Body: []gen.Stmt{ret(selfAcc)}, HasFinally: true, Finally: []gen.Stmt{gen.ExprStmt{X: gen.L(1, n)}}}), false, true},
@@ -856,6 +861,12 @@ func famDestr(c *fw.Ctx, emit emitFn) {
 				// one name already declared: re-used, the others defined
 				// (whether a re-used name keeps its variable identity is not documented: not observed through a closure)
 				emit([]gen.Stmt{def("a", gen.IntLit{V: 100}), gen.Define{Names: ns, X: r}, ret(gen.Arr{E: nameExprs(ns)})}, true)
+				// ... and observed through a closure created before: `:=` declares, and the property text says "one fresh
+				// variable per executed declaration", so the closure keeps seeing the variable it captured
+				emit([]gen.Stmt{def("a", gen.IntLit{V: 100}), def("g", fn(nil, false, ret(gen.Name{N: "a"}))), gen.Define{Names: ns, X: r},
+					ret(gen.Arr{E: append([]gen.Expr{call("g")}, nameExprs(ns)...)})}, true)
+				emit([]gen.Stmt{ret(gen.Call{Fn: gen.Paren{X: fn([]string{"a"}, false, def("g", fn(nil, false, gen.Assign{T: []gen.Expr{gen.Name{N: "a"}}, Op: "+=", X: gen.IntLit{V: 1}}, ret(gen.Name{N: "a"}))), gen.Define{Names: ns, X: r},
+					ret(gen.Arr{E: append([]gen.Expr{call("g"), call("g")}, nameExprs(ns)...)}))}, Args: []gen.Expr{gen.IntLit{V: 40}}})}, true)
 				// inside a function and inside a block
 				emit([]gen.Stmt{ret(gen.Call{Fn: gen.Paren{X: fn(nil, false, gen.Define{Names: ns, X: r}, obs)}})}, true)
 				emit([]gen.Stmt{def("a", gen.IntLit{V: 100}), gen.Block{Body: []gen.Stmt{gen.ExprStmt{X: gen.L(0)}, gen.Define{Names: ns, X: r}, gen.ExprStmt{X: gen.L(1, gen.Arr{E: nameExprs(ns)})}}}, ret(gen.Name{N: "a"})}, true)
